@@ -706,7 +706,25 @@ def _s_codec(op):
     return f
 
 
+def _s_cipher_update(it, v, args, kwargs, node):
+    """encryptor.update(data) of a block cipher context: as many bytes as it is given (whole blocks); kept symbolic"""
+    o = getattr(v, 'origin', None)
+    data = it.resolve(args[0]) if args else None
+    if isinstance(o, tuple) and len(o) >= 3 and o[0] == 'method' and o[2] in ('encryptor', 'decryptor') and \
+            isinstance(data, SeqV) and data.kind == 'bytes':
+        return seqops.opaque(it, 'bytes', data.length(), ('cipher-update', v, data), deps=(data,), tags=value_tags(data))
+    return SymV(it.fresh('update'), 'ext', origin=('method', v, 'update', args, kwargs), tags=value_tags(v))
+
+
+def _s_cipher_finalize(it, v, args, kwargs, node):
+    o = getattr(v, 'origin', None)
+    if isinstance(o, tuple) and len(o) >= 3 and o[0] == 'method' and o[2] in ('encryptor', 'decryptor') and not args:
+        return lit(b'')      # unpadded block modes return everything from update()
+    return SymV(it.fresh('finalize'), 'ext', origin=('method', v, 'finalize', args, kwargs), tags=value_tags(v))
+
+
 SYM_METHODS = {
+    ('ext', 'update'): _s_cipher_update, ('ext', 'finalize'): _s_cipher_finalize,
     ('*', 'decode'): _s_codec('decode'), ('*', 'encode'): _s_codec('encode'),
     ('logger', 'debug'): _s_total('debug'), ('logger', 'info'): _s_total('info'),
     ('logger', 'warning'): _s_total('warning'), ('logger', 'error'): _s_total('error'),
@@ -918,6 +936,14 @@ def e_datetime_ctor(it, args, kwargs, node):
     it.may_raise(ValueError, node, 'datetime()', wire=any('wire' in value_tags(a) for a in args))
     tags = frozenset().union(*[value_tags(a) for a in args]) if args else frozenset()
     return SymV(it.fresh('datetime'), 'datetime', origin=('datetime-ctor', list(args), dict(kwargs)), tags=tags)
+
+
+def e_exitstack(it, args, kwargs, node):
+    return it.instantiate(it.an.prog.synthetic('ExitStack'), [], {}, node)
+
+
+def e_contextmanager(it, args, kwargs, node):
+    return args[0] if args else UnkV('contextmanager')
 
 
 def e_reduce(it, args, kwargs, node):
@@ -1159,6 +1185,7 @@ EXT = {
     'struct.unpack': e_struct_unpack, 'struct.pack': e_struct_pack, 'struct.calcsize': e_struct_calcsize,
     'binascii.hexlify': e_hexlify, 'binascii.b2a_hex': e_hexlify,
     'binascii.unhexlify': e_unhexlify, 'binascii.a2b_hex': e_unhexlify,
+    'contextlib.ExitStack': e_exitstack, 'contextlib.contextmanager': e_contextmanager,
     'functools.reduce': e_reduce, 'operator.xor': _operator('op_xor'), 'operator.add': _operator('op_add'),
     'operator.or_': _operator('op_or'), 'operator.and_': _operator('op_and'),
     'datetime.datetime': e_datetime_ctor, 'datetime.datetime.strptime': e_strptime, 'datetime.datetime.fromisoformat': e_fromisoformat,
